@@ -1446,8 +1446,11 @@ fn child_main(seed: u64, domain: Domain, lo: usize, hi: usize, file: &Path, n_se
                     // model lines of this map (accepted or not): `M <idx> <request> <observed>`
                     #[cfg(feature = "p05m")]
                     if !checked_profile() {
+                        // thorough tier (n_settings = 2): every rejected map, every 4th accepted one (volume)
                         for (req, obs) in crate::c05_models::susp_lines_of_map(&map) {
-                            let _ = writeln!(out, "M\t{idx}\t{req}\t{obs}");
+                            if n_settings < 2 || obs != "ok" || idx % 4 == 0 {
+                                let _ = writeln!(out, "M\t{idx}\t{req}\t{obs}");
+                            }
                         }
                     }
                     let susp = rec.call("check_suspicion", || map.check_suspicion().is_ok());
@@ -1470,7 +1473,7 @@ fn child_main(seed: u64, domain: Domain, lo: usize, hi: usize, file: &Path, n_se
                             let heavy = sl >= HEAVY_SLIDER_MS;
                             // both stacking passes on the osu! objects of this map vs the Lean model
                             #[cfg(feature = "p05m")]
-                            if !checked_profile() && !heavy && map.mode == GameMode::Osu {
+                            if !checked_profile() && !heavy && map.mode == GameMode::Osu && (n_settings < 2 || idx % 4 == 0) {
                                 let thr = [840.0, 0.0, 1.0e9, 150.0, 1260.0][idx % 5];
                                 if let Some(ls) = rec.call("osu-stacking-probe", || crate::c05_models::stk_lines_of_map(&map, thr)) {
                                     for (req, obs) in ls {
